@@ -3,8 +3,8 @@
    Print Assumptions follows every theorem.  matching_terms f t doc = the input terms of doc in field f with bytes t, in input order; implied_freq / implied_locs / implied_norm are their summed frequency, concatenated resolved locations and the norm of the summed field length. *)
 
 From Coq Require Import List NArith Bool Sorting Permutation.
-From Ice Require Import Base Spec Varint Chunk Postings IntCoder.
-From IceProofs Require Build_Proofs Sort_Proofs IntCoder_Proofs.
+From Ice Require Import Base Spec Varint Chunk Postings IntCoder Builder.
+From IceProofs Require Build_Proofs Sort_Proofs IntCoder_Proofs Builder_Proofs.
 Import ListNotations.
 Open Scope N_scope.
 
@@ -181,6 +181,120 @@ Theorem finalSize_zero_iff :
     run_term zc cs m es = Ok c -> coder_finalSize c = 0 <-> Forall (fun e : N * list N => snd e = []) es.
 Proof. exact @IntCoder_Proofs.finalSize_zero_iff. Qed.
 Print Assumptions finalSize_zero_iff.
+
+(* R-build: the statement-by-statement model of the builder's in-memory phase (field numbering, prepareDicts with its counting pass and windows into two flat backing arrays, processDocument with ANY map iteration order, the walk of writeDictsTermField) produces for every field and term exactly the postings the specification implies, in the specification's field and term order *)
+Theorem R_build_postings :
+    forall (norm : bytes -> N -> N) (perm : N -> nat -> list (bytes * TokFreq) -> list (bytes * TokFreq)),
+    (forall (n : N) (q : nat) (l : list (bytes * TokFreq)), Permutation (perm n q l) l) ->
+    forall b : Batch,
+    valid_batch b = true ->
+    build_postings_model norm perm b =
+    map
+    (fun f : bytes =>
+    (f,
+    map
+    (fun t : bytes =>
+    (t, map (to_eposting (define_fields b)) (o_postings (abs_of_batch norm b) f t)))
+    (o_terms (abs_of_batch norm b) f))) (define_fields b).
+Proof. exact @Builder_Proofs.R_build_postings. Qed.
+Print Assumptions R_build_postings.
+
+(* the counting pass bounds the appending pass: no append ever leaves its own window of the shared backing arrays (for every batch, valid or not) *)
+Theorem windows_disjoint :
+    forall (norm : bytes -> N -> N) (perm : N -> nat -> list (bytes * TokFreq) -> list (bytes * TokFreq)),
+    (forall (n : N) (q : nat) (l : list (bytes * TokFreq)), Permutation (perm n q l) l) ->
+    forall b : Batch,
+    let T :=
+    Builder_Proofs.run_trace norm perm
+    {|
+    i_flds := i_flds (initial b);
+    i_postings := repeat [] (p_pidNext (prepared b));
+    i_fn := [];
+    i_locs := []
+    |} b in
+    let aF := arr_make (p_totTFs (prepared b)) (p_numTerms (prepared b)) in
+    let aL := arr_make (p_totLocs (prepared b)) (p_numLocs (prepared b)) in
+    i_fn (convert_inmem norm perm b) = Builder_Proofs.arr_run aF (i_fn T) /\
+    i_locs (convert_inmem norm perm b) = Builder_Proofs.arr_run aL (i_locs T) /\
+    (forall tr1 tr2 : list (nat * interimFreqNorm),
+    i_fn T = tr1 ++ tr2 ->
+    Builder_Proofs.Sim (p_numTerms (prepared b)) (Builder_Proofs.arr_run aF tr1)
+    (Builder_Proofs.log_run (repeat [] (length (p_numTerms (prepared b)))) tr1)) /\
+    (forall tr1 tr2 : list (nat * ELoc),
+    i_locs T = tr1 ++ tr2 ->
+    Builder_Proofs.Sim (p_numLocs (prepared b)) (Builder_Proofs.arr_run aL tr1)
+    (Builder_Proofs.log_run (repeat [] (length (p_numLocs (prepared b)))) tr1)).
+Proof. exact @Builder_Proofs.windows_disjoint. Qed.
+Print Assumptions windows_disjoint.
+
+Theorem no_detach :
+    forall (norm : bytes -> N -> N) (perm : N -> nat -> list (bytes * TokFreq) -> list (bytes * TokFreq))
+    (b : Batch),
+    (forall (n : N) (q : nat) (l : list (bytes * TokFreq)), Permutation (perm n q l) l) ->
+    let T :=
+    Builder_Proofs.run_trace norm perm
+    {|
+    i_flds := i_flds (initial b);
+    i_postings := repeat [] (p_pidNext (prepared b));
+    i_fn := [];
+    i_locs := []
+    |} b in
+    let nT := p_numTerms (prepared b) in
+    let nL := p_numLocs (prepared b) in
+    (forall (tr1 tr2 : list (nat * interimFreqNorm)) (pid : nat),
+    i_fn T = tr1 ++ tr2 ->
+    (pid < length nT)%nat ->
+    exists len : nat,
+    nth pid (slices (Builder_Proofs.arr_run (arr_make (p_totTFs (prepared b)) nT) tr1)) (Detached []) =
+    Win (Builder_Proofs.off_of nT pid) len /\
+    (len <= nth pid nT 0)%nat /\
+    (Builder_Proofs.off_of nT pid + nth pid nT 0 <=
+    length (backing (Builder_Proofs.arr_run (arr_make (p_totTFs (prepared b)) nT) tr1)))%nat) /\
+    (forall (tr1 tr2 : list (nat * ELoc)) (pid : nat),
+    i_locs T = tr1 ++ tr2 ->
+    (pid < length nL)%nat ->
+    exists len : nat,
+    nth pid (slices (Builder_Proofs.arr_run (arr_make (p_totLocs (prepared b)) nL) tr1)) (Detached []) =
+    Win (Builder_Proofs.off_of nL pid) len /\
+    (len <= nth pid nL 0)%nat /\
+    (Builder_Proofs.off_of nL pid + nth pid nL 0 <=
+    length (backing (Builder_Proofs.arr_run (arr_make (p_totLocs (prepared b)) nL) tr1)))%nat).
+Proof. exact @Builder_Proofs.no_detach. Qed.
+Print Assumptions no_detach.
+
+(* getOrDefineField + sort.Strings(FieldsInv[1:]) = _id followed by the sorted remaining names *)
+Theorem define_fields_spec :
+    forall b : Batch, define_fields b = field_list (batch_field_names b).
+Proof. exact @Builder_Proofs.define_fields_spec. Qed.
+Print Assumptions define_fields_spec.
+
+Example build_model_example :
+    valid_batch Builder_Proofs.exb_batch = true /\
+    build_postings_model Builder_Proofs.exb_norm Builder_Proofs.perm_id Builder_Proofs.exb_batch =
+    Builder_Proofs.exb_result /\
+    build_postings_model Builder_Proofs.exb_norm Builder_Proofs.perm_rev Builder_Proofs.exb_batch =
+    Builder_Proofs.exb_result /\
+    map
+    (fun f : bytes =>
+    (f,
+    map
+    (fun t : bytes =>
+    (t,
+    map (to_eposting (define_fields Builder_Proofs.exb_batch))
+    (o_postings (abs_of_batch Builder_Proofs.exb_norm Builder_Proofs.exb_batch) f t)))
+    (o_terms (abs_of_batch Builder_Proofs.exb_norm Builder_Proofs.exb_batch) f)))
+    (define_fields Builder_Proofs.exb_batch) = Builder_Proofs.exb_result /\
+    map (fun o : option interimFreqNorm => match o with
+    | Some _ => true
+    | None => false
+    end)
+    (backing
+    (i_fn (convert_inmem Builder_Proofs.exb_norm Builder_Proofs.perm_rev Builder_Proofs.exb_batch))) =
+    [true; true; true; true; true; false; true; true; true; true; true] /\
+    slices (i_fn (convert_inmem Builder_Proofs.exb_norm Builder_Proofs.perm_rev Builder_Proofs.exb_batch)) =
+    [Win 0 1; Win 1 2; Win 3 2; Win 6 1; Win 7 1; Win 8 1; Win 9 1; Win 10 1].
+Proof. exact @Builder_Proofs.build_model_example. Qed.
+Print Assumptions build_model_example.
 
 (* non-vacuity: repeated field, shared term, a location naming another field *)
 Example build_postings_example :
